@@ -39,7 +39,8 @@ LONG_MODES = MODES + ["max256", "max100", "max7"]
 LONG_LEN = (200, 1200)
 READ_BUF = 256            # Terminal.inBuf
 MULTIBYTE = ["é", "ß", "東", "€", "😀", "𝄞",    # 2, 2, 3, 3, 4, 4 bytes in UTF-8
-             "\u00ad", "\u200d", "\u200c"]           # soft hyphen (2), zero-width joiner / non-joiner (3): format characters are text too
+             "\u00ad", "\u200d", "\u200c",
+             "\u0127", "\u5927", "\u2022", "\u0122"]  # code points whose low byte is a quote character (0x27, 0x22): still one character           # soft hyphen (2), zero-width joiner / non-joiner (3): format characters are text too
 STRADDLES = [(2, 1), (3, 1), (3, 2), (4, 1), (4, 2), (4, 3)]   # (bytes of the character, bytes before the boundary)
 FINDING = "semicolon-in-quotes"
 PER_SIGNATURE = 3        # replay files written per failure signature (shortest inputs first)
@@ -449,6 +450,21 @@ def run_long(ctx, cov):
     for k in NEED_KINDS_LONG:
         if lc["kinds"].get(k, 0) == 0:
             raise vlib.Undecided("vacuous: no long input exercised '%s'" % k)
+
+    # sessions of many statements (the console keeps a history ring of 100): 150 short statements one per line, two per
+    # line and one across two lines, all in one input
+    many = []
+    for k in range(150):
+        stmt = "a%s ;" % ("b" * (k % 3))
+        many.append(stmt + "\r" if k % 3 == 0 else stmt + (" " if k % 3 == 1 else "\r"))
+        if k % 7 == 6:
+            many[-1] = many[-1].replace(" ;", "\r;")
+    data = "".join(many).encode()
+    if not data.endswith(b"\r"):
+        data += b"\r"
+    scns.append(dict(id=len(scns) + 1, keys=list(data), modes=LONG_MODES, long=True))
+    lc["many_statement_inputs"] = 1
+    n = len(scns)
 
     d = ctx.sub("c20-long")
     scn_path, out_path = os.path.join(d, "scn.ndjson"), os.path.join(d, "out.ndjson")
